@@ -11,7 +11,7 @@ LOGS = os.path.join(VERIF, "logs")
 KNOWN = os.path.join(VERIF, "known_findings.json")
 
 TOTAL_MEM_GB = 50          # budget for concurrently running CBMC jobs (machine: 62 GB, no swap)
-KANI_FLAGS = ["-Z", "unstable-options", "--no-memory-safety-checks"]
+KANI_FLAGS = ["-Z", "unstable-options", "--no-memory-safety-checks", "--no-assertion-reach-checks"]
 CBMC_FLAGS = ["--cbmc-args", "--unwindset", "memcmp.0:18", "--max-field-sensitivity-array-size", "1024"]
 
 ENV = dict(os.environ)
@@ -243,14 +243,38 @@ def parse_log(path, rc):
 
 
 def parse_playback(txt):
-    m = re.search(r"let concrete_vals: Vec<Vec<u8>> = vec!\[(.*?)\n\s*\];", txt, re.S)
-    if not m:
-        return None
-    vals = []
-    for v in re.finditer(r"vec!\[([0-9, ]*)\]", m.group(1)):
-        s = v.group(1).strip()
-        vals.append([int(x) for x in s.split(",")] if s else [])
-    return vals
+    """-> list of (kind, description, values) for every concrete playback test Kani printed"""
+    out = []
+    heads = list(re.finditer(r"/// Check for `(\w+)`: \"(.*)\"\s*$", txt, re.M))
+    for i, m in enumerate(heads):
+        end = heads[i + 1].start() if i + 1 < len(heads) else len(txt)
+        seg = txt[m.end():end]
+        b = re.search(r"let concrete_vals: Vec<Vec<u8>> = vec!\[(.*?)\n\s*\];", seg, re.S)
+        if not b:
+            continue
+        vals = []
+        for v in re.finditer(r"vec!\[([0-9, ]*)\]", b.group(1)):
+            x = v.group(1).strip()
+            vals.append([int(t) for t in x.split(",")] if x else [])
+        out.append((m.group(1), m.group(2).strip('"'), vals))
+    return out or None
+
+
+def candidate_playbacks(playback, descs):
+    """Candidate value vectors for the failed descriptions, best first. Kani de-duplicates its playback
+    tests by the hash of their values, so the values of a failed assertion may be printed under the
+    label of a cover property with the same trace: cover-labelled vectors are candidates too, but only
+    count as a reproduction when the native panic message is one of the failed descriptions."""
+    if not playback:
+        return []
+    exact = [(v, False) for k, d, v in playback if k != "cover" and any(x in d or d in x for x in descs)]
+    other = [(v, False) for k, d, v in playback if k != "cover" and (v, False) not in exact]
+    covers = [(v, True) for k, d, v in playback if k == "cover"]
+    out = []
+    for c in exact + other + covers:
+        if c[0] not in [o[0] for o in out]:
+            out.append(c)
+    return out
 
 
 # ----------------------------------------------------------------------------- known findings
@@ -418,14 +442,24 @@ def main(argv):
         log(f"KNOWN-FINDING: property={prop} {k} harness={hn}: {open_kf[k].get('what', desc)}")
     nviol = 0
     for h, r, unknown in violations:
-        rep, err = (None, "solver returned no concrete values")
-        if r.playback is not None:
-            rep, err = replay_native(h, r.playback, REPLAYS)
-        reproduced = rep is not None and any(v["failed"] for v in rep.values())
+        rep, err, vals = None, "solver returned no concrete values", None
+        descs = [d for d, _ in unknown]
+        reproduced = False
+        for cand, need_msg in candidate_playbacks(r.playback, descs):
+            rep, err = replay_native(h, cand, REPLAYS)
+            vals = cand
+            if rep is None:
+                break
+            hit = [v for v in rep.values() if v["failed"]]
+            if need_msg:
+                hit = [v for v in hit if any(any(d in m or m in d for d in descs) for m in v["messages"] if m)]
+            if hit:
+                reproduced = True
+                break
         rec = {
             "property": prop, "harness": h.full, "crate": h.crate, "source": h.src,
             "failed_checks": [{"description": d, "where": w} for d, w in unknown],
-            "concrete_values": r.playback, "native_replay": rep, "kani_log": r.log,
+            "concrete_values": vals, "native_replay": rep, "kani_log": r.log,
             "how_to_replay": f"./check --replay <this file>",
         }
         if reproduced:
